@@ -98,6 +98,8 @@ pub fn weights_for(prop: &str) -> [u32; 18] {
             w[O_RETAIN] = 5;
             w[O_CLEAR] = 2;
             w[O_ADAPT] = 8;
+            // the unsafe fast path inside its contract moves and drops elements too
+            w[O_UNCHECKED] = 4;
         }
         "C05" => {
             w[O_ENTRY] = 10;
@@ -449,7 +451,7 @@ impl<'a> Engine<'a> {
                     if v.payload() != e.payload {
                         self.h.viol("C01", "value", format!("class {}: stored value {} but the model says {}", class, v.payload(), e.payload));
                     }
-                    if F::TRACKED {
+                    if F::IDENT {
                         if k.tag() != e.tag || k.id() != e.kid {
                             let msg = format!("class {}: stored key is tag {} id {:#x}, model expects tag {} id {:#x}", class, k.tag(), k.id(), e.tag, e.kid);
                             self.h.viol("C12", "stored-key-identity", msg.clone());
@@ -525,7 +527,7 @@ impl<'a> Engine<'a> {
                         if *p != e.payload {
                             self.h.viol("C01", "get_key_value", format!("get_key_value(class {}) by {}: value {} vs model {}", class, how, p, e.payload));
                         }
-                        if F::TRACKED && (*tag != e.tag || *kid != e.kid) {
+                        if F::IDENT && (*tag != e.tag || *kid != e.kid) {
                             let msg = format!("get_key_value(class {}) exposes key tag {} id {:#x}, stored key is tag {} id {:#x}", class, tag, kid, e.tag, e.kid);
                             self.h.viol("C12", "get_key_value-identity", msg.clone());
                             // the key object is part of the return value (get_key_value / insert_key_value / remove_entry), so C01 is refuted as well
@@ -617,7 +619,7 @@ impl<'a> Engine<'a> {
                         me.vid = vid;
                         me.payload = payload;
                         if which == O_IKV {
-                            if F::TRACKED {
+                            if F::IDENT {
                                 if let Some((otag, oid)) = okey {
                                     if otag != e.tag || oid != e.kid {
                                         let msg = format!("insert_key_value returned key tag {} id {:#x} but the stored key was tag {} id {:#x}", otag, oid, e.tag, e.kid);
@@ -740,7 +742,7 @@ impl<'a> Engine<'a> {
                 } else if F::TRACKED && vid != e.vid {
                     self.h.viol("C02", "returned-object", format!("{} returned value object {:#x}, the stored one was {:#x}", name, vid, e.vid));
                 }
-                if let (true, Some((tag, kid))) = (F::TRACKED, key) {
+                if let (true, Some((tag, kid))) = (F::IDENT, key) {
                     if tag != e.tag || kid != e.kid {
                         let msg = format!("remove_entry(class {}) returned key tag {} id {:#x}; the stored key was tag {} id {:#x}", class, tag, kid, e.tag, e.kid);
                         self.h.viol("C12", "removed-key-identity", msg.clone());
@@ -1640,7 +1642,7 @@ impl<'a> Engine<'a> {
                         if p != e.payload || (F::TRACKED && vid != e.vid) {
                             self.h.viol("C11", "occupied-remove", format!("OccupiedEntry::remove* returned {} ({:#x}); the stored value was {} ({:#x})", p, vid, e.payload, e.vid));
                         }
-                        if let (true, Some((t, id))) = (F::TRACKED, key) {
+                        if let (true, Some((t, id))) = (F::IDENT, key) {
                             if t != e.tag || id != e.kid {
                                 self.h.viol("C12", "removed-key-identity", format!("OccupiedEntry::remove_entry returned key tag {} id {:#x}; stored key was tag {} id {:#x}", t, id, e.tag, e.kid));
                             }
@@ -1648,7 +1650,7 @@ impl<'a> Engine<'a> {
                         s.model.remove(class);
                     }
                     (None, Out::VacantKey(t, id)) => {
-                        if F::TRACKED && (t != tag || id != kid) {
+                        if F::IDENT && (t != tag || id != kid) {
                             self.h.viol("C11", "vacant-key", format!("VacantEntry::key/into_key exposes tag {} id {:#x}, the supplied key was tag {} id {:#x}", t, id, tag, kid));
                         }
                     }
@@ -1724,6 +1726,50 @@ impl<'a> Engine<'a> {
         Some(t)
     }
 
+
+    /// C15: `target.clone_from(&source)` between the two live copies
+    fn op_clone_from<F: Fam, const N: usize>(&mut self, suts: &mut [Sut<F, N>], ix: usize) {
+        let (tl, sl) = (suts[ix].model.len(), suts[1 - ix].model.len());
+        self.step("clone_from", || format!("copy#{}.clone_from(copy#{}) target holds {}, source holds {}", ix, 1 - ix, tl, sl));
+        self.cx.rep.evaluations += 1;
+        if !self.light { self.cx.rep.hit(&format!("clone_from:{}", if tl > sl { "target-longer" } else if tl == sl { "same-length" } else { "target-shorter" })); }
+        let (a, b) = suts.split_at_mut(1);
+        let (target, source) = if ix == 0 { (&mut a[0], &b[0]) } else { (&mut b[0], &a[0]) };
+        let cc0 = F::clone_counts();
+        ledger::log_start();
+        target.fr.get_mut().clone_from(source.fr.get());
+        let log = ledger::log_take();
+        let n = source.model.len() as u64;
+        if let (Some(x), Some(y)) = (cc0, F::clone_counts()) {
+            if y.0 - x.0 != n || y.1 - x.1 != n {
+                self.h.viol("C15", "clone-count", format!("clone_from a source of {} entries called K::clone {} times and V::clone {} times", n, y.0 - x.0, y.1 - x.1));
+            }
+        }
+        let mut model = Dict::new(N);
+        if F::TRACKED {
+            let kc: Vec<(u64, u64)> = log.iter().filter_map(|e| if let Ev::Clone { from, to, kind } = e { if *kind == KIND_KEY { Some((*from, *to)) } else { None } } else { None }).collect();
+            let vc: Vec<(u64, u64)> = log.iter().filter_map(|e| if let Ev::Clone { from, to, kind } = e { if *kind == KIND_VAL { Some((*from, *to)) } else { None } } else { None }).collect();
+            if kc.len() as u64 != n || vc.len() as u64 != n {
+                self.h.viol("C15", "clone-count", format!("clone_from a source of {} entries made {} key clones and {} value clones", n, kc.len(), vc.len()));
+            }
+            for e in &source.model.ents {
+                let k: Vec<&(u64, u64)> = kc.iter().filter(|x| x.0 == e.kid).collect();
+                let v: Vec<&(u64, u64)> = vc.iter().filter(|x| x.0 == e.vid).collect();
+                if k.len() == 1 && v.len() == 1 {
+                    model.push(Ent { class: e.class, tag: e.tag, kid: k[0].1, vid: v[0].1, payload: e.payload });
+                } else {
+                    self.h.viol("C15", "clone-count", format!("clone_from: key of class {} cloned {} times, its value {} times", e.class, k.len(), v.len()));
+                }
+            }
+        } else {
+            model = source.model.clone();
+        }
+        target.model = model;
+        if !(target.fr.get() == source.fr.get()) || !(source.fr.get() == target.fr.get()) {
+            self.h.viol("C15", "clone-not-equal", format!("after clone_from the target (len {}) != the source (len {})", target.fr.get().len(), source.fr.get().len()));
+        }
+    }
+
     // -----------------------------------------------------------------------------------------
 
     fn one_op<F: Fam, const N: usize>(&mut self, suts: &mut Vec<Sut<F, N>>, which: usize) {
@@ -1753,6 +1799,8 @@ impl<'a> Engine<'a> {
                         if let Some(t) = t {
                             suts.push(t);
                         }
+                    } else if self.rng.chance(1, 2) {
+                        self.op_clone_from(&mut suts[..], ix);
                     } else {
                         // destroy one copy: the other must be untouched (checked by the sweep)
                         self.step("drop-copy", || format!("drop copy #{}", ix));
@@ -1827,7 +1875,7 @@ pub fn required_rows(prop: &str) -> Vec<&'static str> {
         "C09" => vec!["iter:", "iter_mut:", "keys:", "values:", "values_mut:", "adaptor:"],
         "C10" => vec!["drain", "into_iter", "into_keys", "into_values"],
         "C12" => vec!["insert", "insert_key_value", "checked_insert", "remove_entry", "entry."],
-        "C15" => vec!["clone", "drop-copy"],
+        "C15" => vec!["clone", "drop-copy", "clone_from"],
         "C18" => vec!["insert_unchecked"],
         "C19" => vec!["fmt:map-debug", "fmt:map-alt-debug", "fmt:map-display", "fmt:Iter:", "fmt:IterMut", "fmt:Keys", "fmt:Values:", "fmt:ValuesMut", "fmt:IntoIter", "fmt:IntoKeys", "fmt:Drain"],
         _ => vec![],
